@@ -63,6 +63,8 @@ def entries():
         "SE3.inv": ([A, L], lambda a, x: (SE3.Tx(x) * SE3.Rx(a)).inv()), "SE3.Ad": ([A, L], lambda a, x: (SE3.Tx(x) * SE3.Rx(a)).Ad()),
         "SE3.jacob": ([A, L], lambda a, x: (SE3.Tx(x) * SE3.Rx(a)).jacob()),
         "simplify": ([A, L], lambda a, x: (SE3.Rx(a) * SE3.Tx(x) * SE3.Rx(a)).simplify()),
+        "norm([x,0,0])": ([L], lambda x: b.norm([x, 0, 0])), "norm((0,y,0))": ([L], lambda y: b.norm((0, y, 0))),
+        "norm(array[0,0,2z])": ([L], lambda z: b.norm(np.array([0, 0, 2 * z]))), "normsq([x,0,0])": ([L], lambda x: b.normsq([x, 0, 0])),
         "qpow(-3)": ([L, L, L, L], lambda s, x, y, z: b.qpow([s, x, y, z], -3)),
         "qpow(-2)": ([L, L, L, L], lambda s, x, y, z: b.qpow(np.array([s, x, y, z]), -2)),
         "qpow(-1)": ([L, L, L, L], lambda s, x, y, z: b.qpow([s, x, y, z], -1)),
@@ -134,7 +136,9 @@ def mat_entries():
         "SE3*SE3": (True, lambda R, t: SE3(hom(R, t), check=False) * SE3(T2, check=False)),
         "SE3*point": (True, lambda R, t: SE3(hom(R, t), check=False) * [1, -2, 3]),
         "SO3*point": (False, lambda R, t: SO3(R, check=False) * [1, -2, 3]),
-        "simplify": (True, lambda R, t: SE3(hom(R, t), check=False).simplify()),
+        # simplify() must not change the VALUE of a pose: the numeric counterpart of X.simplify() is X itself
+        "simplify": (True, lambda R, t: (lambda X: X.simplify() if np.asarray(X.A).dtype == object else X)(SE3(hom(R, t), check=False))),
+        "SO3.simplify": (False, lambda R, t: (lambda X: X.simplify() if np.asarray(X.A).dtype == object else X)(SO3(R, check=False))),
     }
     out = {}
     for name, (uses_t, f) in fns.items():
